@@ -23,7 +23,8 @@ ENTRY_OF = {"matmul": "E_matmul", "rmatmul": "E_rmatmul", "solve": "E_solve", "i
             "add": "E_add", "sub": "E_sub", "mul": "E_mul"}
 SQUARE_ENTRY = {"solve": "E_solve", "inv_quad": "E_inv_quad", "inv_quad_logdet": "E_inv_quad_logdet",
                 "add_diagonal": "E_add_diagonal", "logdet": "E_logdet", "diagonalization": "E_diagonalization",
-                "root_decomposition": "E_root_decomposition", "root_inv_decomposition": "E_root_inv_decomposition"}
+                "root_decomposition": "E_root_decomposition", "root_inv_decomposition": "E_root_inv_decomposition",
+                "cholesky": "E_cholesky"}
 
 
 def regenerate():
@@ -65,6 +66,37 @@ def operators(seed, quick):
                         continue
                 out.append((tag, e))
     return out
+
+
+THIN_SHAPES = ((3, 1), (2, 1), (1, 3), (2, 3))
+SQUARE_ONLY_OPS = ("solve", "inv_quad", "inv_quad_logdet", "logdet", "cholesky", "root_decomposition", "root_inv_decomposition",
+                   "diagonalization", "sqrt_inv_matmul")
+
+
+def thin_operators(seed, quick):
+    """rectangular instances of every class that has them, in the shapes the main grid (3 x 2) does not have: a single
+    COLUMN (m x 1: torch's Cholesky / eigendecompositions of the data do not fail on it), a single row, wide — for the
+    square-only operations"""
+    from . import opbuild as ob
+    out = []
+    for cls in ob.ALL:
+        if cls in ob.SQUARE_ONLY:
+            continue
+        for B in ([], [2]) if quick else ([], [2], [2, 1]):
+            for (m, k) in THIN_SHAPES:
+                e = c19_pairs.rhs_expr(cls, B, m, k, seed)
+                if e is not None:
+                    out.append(("%s|%s|%d|%d|thin" % (cls, B, m, k), e))
+    return out
+
+
+def square_only_cases(sh, rng):
+    m, k = sh[-2], sh[-1]
+    kind = "nonsquare_col" if k == 1 else ("nonsquare_row" if m == 1 else ("nonsquare_wide" if m < k else "nonsquare"))
+    cs = [{"op": o, "kind": kind, "arg": tspec(rng, [m, 2])} for o in SQUARE_ONLY_OPS]
+    cs.append({"op": "add_diagonal", "kind": kind, "arg": tspec(rng, [k])})
+    cs.append({"op": "add_jitter", "kind": kind, "arg": tspec(rng, [])})
+    return cs
 
 
 def small_operators(seed):
@@ -507,6 +539,7 @@ def execute(op, D, case):
     fs = {"solve": lambda: op.solve(X), "inv_quad": lambda: op.inv_quad(X),
           "inv_quad_logdet": lambda: op.inv_quad_logdet(X, logdet=True), "logdet": lambda: op.logdet(),
           "cholesky": lambda: op.cholesky(), "root_decomposition": lambda: op.root_decomposition(),
+          "sqrt_inv_matmul": lambda: op.sqrt_inv_matmul(X), "add_jitter": lambda: op.add_jitter(0.5),
           "root_inv_decomposition": lambda: op.root_inv_decomposition(), "diagonalization": lambda: op.diagonalization()}
     return attempt(fs[o]), ("raise", "square-only operation on a rectangular matrix")
 
@@ -730,6 +763,12 @@ def run_unit(args):
     recs = []
     rng = random.Random("%d-cases-%s" % (seed, tag))
     small = sh == [1, 1]
+    if tag.endswith("|thin"):
+        for case in square_only_cases(sh, rng):
+            ex = execute(op, D, case)
+            if ex is not None:
+                recs.append({"tag": tag, "expr": e, "cls": clsname, "shape": sh, "case": case, "impl": ex[0], "torch": ex[1]})
+        return recs
     base_cases = cases_for(sh, rng) + ctor_cases(clsname, sh, rng)
     if small:
         base_cases = [c for c in base_cases if c["op"] in ("matmul", "rmatmul", "matmul_lo", "ctor_matmul")]
@@ -814,14 +853,14 @@ def run_grid(ctx, quick, limit_report=None):
         with mp.get_context("fork").Pool(WORKERS) as pool:
             dsel = pool.apply(select_derived, (seed, quick))
             units = [(seed, quick, tag, e, dsel.get(tag, [])) for tag, e in operators(seed, quick)] + \
-                    [(seed, quick, tag, e, []) for tag, e in small_operators(seed)]
+                    [(seed, quick, tag, e, []) for tag, e in small_operators(seed) + thin_operators(seed, quick)]
             parts = pool.map(run_unit, units, chunksize=2)
     except (OSError, ImportError, RuntimeError) as ex:        # no process pool available: same work, in process
         if hasattr(ctx, "say"):
             ctx.say("process pool unavailable (%r): running the grid in process" % (ex,))
         dsel = select_derived(seed, quick)
         units = [(seed, quick, tag, e, dsel.get(tag, [])) for tag, e in operators(seed, quick)] + \
-                [(seed, quick, tag, e, []) for tag, e in small_operators(seed)]
+                [(seed, quick, tag, e, []) for tag, e in small_operators(seed) + thin_operators(seed, quick)]
         parts = [run_unit(u) for u in units]
     return [r for p in parts for r in p]
 
